@@ -2,10 +2,37 @@
    rewrite <pattern>                       -> E | hex of the rewritten text | FUEL (model fuel exhausted: never)
    match <pattern> <string>+               -> per string "b b" (joined by ','), b = XSD answer 1/0, or "X X" (pattern
                                               outside the modelled XSD subset, or not UTF-8)
-   matchlist <string> (<inv> <pattern>)*   -> 1/0 (validate_patterns over the XSD matcher), X as above *)
+   matchlist <string> (<inv> <pattern>)*   -> 1/0 (validate_patterns over the XSD matcher), X as above
+   typeset <string> then levels: L [G<length>] <inv> <pattern> ... -> 1/0 (validate_string over chain_type of the levels; L starts
+                                              the next level of the typedef chain, G gives its length statement), X as above *)
 let rec pairs = function
   | inv :: p :: tl -> { pat_code = unhex p; pat_inverted = (inv = "1") } :: pairs tl
   | _ -> []
+
+(* fields after the string -> levels of (optional length, (inverted, pattern) list); a level is "L", then
+   optionally "G<length argument>" (parts a..b or a, separated by '|'), then <inv> <pattern> pairs *)
+let parse_length (t : string) =
+  List.map (fun part ->
+      match String.index_opt part '.' with
+      | Some i -> (n_of_dec (String.sub part 0 i), n_of_dec (String.sub part (i + 2) (String.length part - i - 2)))
+      | None -> (n_of_dec part, n_of_dec part))
+    (String.split_on_char '|' t)
+
+let levels (fs : string list) =
+  let fin (g, cur) = (g, List.rev cur) in
+  let rec go lv acc = function
+    | [] -> List.rev (fin lv :: acc)
+    | "L" :: tl -> go (None, []) (fin lv :: acc) tl
+    | x :: tl when String.length x > 0 && x.[0] = 'G' ->
+        go (Some (parse_length (String.sub x 1 (String.length x - 1))), snd lv) acc tl
+    | inv :: p :: tl -> go (fst lv, (inv = "1", unhex p) :: snd lv) acc tl
+    | _ -> List.rev (fin lv :: acc) in
+  match fs with "L" :: tl -> go (None, []) [] tl | l -> go (None, []) [] l
+
+(* number of characters of a UTF-8 string: bytes that are not continuation bytes (ly_utf8len) *)
+let nchars (s : string) =
+  let n = ref 0 in
+  String.iter (fun c -> if (Char.code c) land 0xC0 <> 0x80 then incr n) s; !n
 
 let run (f : string list) : string =
   match f with
@@ -26,6 +53,14 @@ let run (f : string list) : string =
   | "matchlist" :: s :: ps ->
       let cm p s = match xsd_match p s with Some b -> Ok b | None -> Err (n_of_int 1) in
       (match validate_patterns cm (pairs ps) (unhex s) with
+       | Ok true -> "1"
+       | Ok false -> "0"
+       | Err _ -> "X")
+  | "typeset" :: s :: fs ->
+      let cm p s = match xsd_match p s with Some b -> Ok b | None -> Err (n_of_int 1) in
+      let t = chain_type { st_length = None; st_patterns = [] } (levels fs) in
+      let raw = if s = "-" then "" else String.init (String.length s / 2) (fun i -> Char.chr (int_of_string ("0x" ^ String.sub s (2 * i) 2))) in
+      (match validate_string cm t (n_of_int (nchars raw)) (unhex s) with
        | Ok true -> "1"
        | Ok false -> "0"
        | Err _ -> "X")
